@@ -6,7 +6,7 @@ import lib, etf_common as E
 
 PID = "C13"
 MODERN_WHY = ("INTEGER_EXT", "SMALL_BIG_EXT", "SMALL_BIG_EXT zero-padded", "LARGE_BIG_EXT", "ATOM_UTF8_EXT", "STRING_EXT", "STRING_EXT empty",
-              "LIST_EXT nested tail", "LARGE_TUPLE_EXT", "BIT_BINARY_EXT bits=8", "NEW_PORT_EXT")
+              "LIST_EXT nested tail", "LARGE_TUPLE_EXT", "BIT_BINARY_EXT bits=8", "NEW_PORT_EXT", "EXPORT_EXT arity as INTEGER_EXT")
 
 
 def judge(v, ob, modern, case):
